@@ -5,7 +5,7 @@
    whose sibling rows are distinct ([wf]: what a Python dict guarantees). *)
 From Coq Require Import List String Bool Arith.
 From Annet Require Import Base.Str Base.Tree Model.Rulebook Model.Diff Model.Order Model.Patch Model.DiffText
-     Spec.P_C03 Spec.P_C03Text Proofs.DiffBasics Proofs.DiffProofs Proofs.DiffTextProofs.
+     Spec.P_C03 Spec.P_C03Text Proofs.DiffBasics Proofs.DiffProofs Proofs.DiffProofsProj Proofs.DiffTextProofs.
 Require Annet.Gen.Src_vendors.
 Import ListNotations.
 Open Scope string_scope.
@@ -23,6 +23,20 @@ Theorem C03_lossless :
     lossless (annot_f rmatch rs old) (annot_f rmatch rs new) (make_diff rmatch rs old new) = true.
 Proof. exact diff_lossless. Qed.
 Print Assumptions C03_lossless.
+
+(* The reconstruction law itself: dropping the ADDED entries of the diff gives old|R and dropping the
+   REMOVED entries gives new|R ([erase_f (annot_f ..)]: the rows the rulebook knows), as unordered
+   trees with the nesting intact ([fperm]: a permutation of the rows of every level; the order inside
+   %ordered rules is C03_ordered_in_new_order), for the side on which no row is governed by a %rewrite
+   rule ([norw]); with %rewrite rows the exact statement of what may be omitted is C03_lossless. *)
+Theorem C03_projections :
+  forall rmatch rs old new, wf old -> wf new ->
+    (norw (annot_f rmatch rs old) = true ->
+     fperm (proj_old (make_diff rmatch rs old new)) (erase_f (annot_f rmatch rs old))) /\
+    (norw (annot_f rmatch rs new) = true ->
+     fperm (proj_new (make_diff rmatch rs old new)) (erase_f (annot_f rmatch rs new))).
+Proof. exact diff_projections. Qed.
+Print Assumptions C03_projections.
 
 (* comparing a configuration with itself reports no change at any depth *)
 Theorem C03_self_empty :
@@ -146,6 +160,12 @@ Example C03_wf_nonvacuous :
   [(Moved, "e 3"); (Moved, "e 2"); (Moved, "e 1")].
 Proof. split; [apply wfb_wf; reflexivity|]. split; [apply wfb_wf; reflexivity|]. vm_compute. reflexivity. Qed.
 
+(* ... and the [norw] guard of C03_projections holds for it on both sides *)
+Example C03_norw_nonvacuous :
+  norw (annot_f ex_match ex_rs ex_old) = true /\ norw (annot_f ex_match ex_rs ex_new) = true /\
+  annot_f ex_match ex_rs ex_old <> [].
+Proof. vm_compute. repeat split; try reflexivity. discriminate. Qed.
+
 (* the guards of the render theorems are satisfiable for a brace-family formatter and a nested diff
    with all four signs, and the listing is the expected one *)
 Definition ex_mi : minfo := MI "e" [] (ex_attrs DDefault).
@@ -158,3 +178,26 @@ Example C03_render_nonvacuous :
   diff_lines (TFmt "    " " {" "}" ";") ex_diff =
   Some ["  a b {"; "+     c;"; ">     d {"; "-         e;"; ">     }"; "  }"; "- z;"].
 Proof. vm_compute. repeat split; reflexivity. Qed.
+
+(* The stricter reading of "a row is MOVED iff its relative order changed" -- MOVED only if the order
+   relative to the other SURVIVING rows changed -- is not what base_diff implements and is refuted by
+   the model (witness replayed on the real make_diff: same result): after the removal of "e 1" the two
+   surviving rows keep their relative order, yet both are MOVED, because move detection compares
+   absolute positions and everything after the first deviation is re-created (which a device that
+   applies the block sequentially needs).  The characterisation that does hold is C03_moved_all_depths. *)
+Definition ex_new2 : forest := [("e 2", T []); ("e 3", T [])].
+Theorem C03_moved_strict_reading_refuted :
+  exists rs old new, wf old /\ wf new /\
+    map (fun k => (d_op k, d_row k)) (make_diff ex_match rs old new) =
+    [(Moved, "e 2"); (Removed, "e 1"); (Moved, "e 3")].
+Proof.
+  exists ex_rs, ex_old, ex_new2. split; [apply wfb_wf; reflexivity|]. split; [apply wfb_wf; reflexivity|].
+  vm_compute. reflexivity.
+Qed.
+Print Assumptions C03_moved_strict_reading_refuted.
+
+(* the boolean tests the check evaluates on real outputs imply the relations the theorems are stated with *)
+Theorem C03_tests_sound :
+  (forall a b, unordered_eqb a b = true -> fperm a b) /\ (forall a b, same_levels a b = true -> tperm a b).
+Proof. split; [exact unordered_eqb_fperm | exact same_levels_tperm]. Qed.
+Print Assumptions C03_tests_sound.
